@@ -2,4 +2,5 @@ import PynProps.C01
 import PynProps.C02
 import PynProps.C03
 import PynProps.C05
+import PynProps.C06
 import PynProps.C15
